@@ -212,7 +212,7 @@ def observe_tree(t):
     return out
 
 
-def do_read(R, opt, data, tmp, attempt=False, **more):
+def do_read(R, opt, data, tmp, attempt=False, extra_cols_as=None, **more):
     """Run one read under option set opt.  Returns (ok, result, warnings); result = (table dict, comments)."""
     from swcgeom.core import Population, Tree
     from swcgeom.core import swc_utils as su
@@ -226,6 +226,8 @@ def do_read(R, opt, data, tmp, attempt=False, **more):
         kw["extra_cols"] = []
     elif extra is None:
         del kw["extra_cols"]
+    elif extra_cols_as is not None:
+        kw["extra_cols"] = extra_cols_as(list(extra))
 
     def run():
         # every returned object is retained: its content must not change because of later reads (kernel re-inspects)
@@ -322,6 +324,13 @@ def check_grammar(case, R):
         if trailing:
             R.check(len(warns) >= 1, "no-warning-for-ignored-fields", ctx, f"grammar:{api}:no-warning")
         R.outcome(got["id"], got["pid"], got["x"], tuple(got_comments), bool(warns))
+        if n_extra > 0:
+            # the requested extra columns handed over in other containers (tuple, one-shot generator, iterator): the same table
+            for form, mk in (("tuple", tuple), ("generator", lambda names: (x for x in names)), ("iterator", iter)):
+                ok2, res2, _ = do_read(R, opt, text, tmp, attempt=False, extra_cols_as=mk)
+                if ok2:
+                    R.check(res2[0] == got, "extra-columns-container", lambda: ctx() + f" extra_cols given as a {form}: {res2[0]} but as a list: {got}",
+                            f"grammar:{api}:extra_cols-as-{form}")
     finally:
         if tmp:
             shutil.rmtree(tmp, ignore_errors=True)
